@@ -5,6 +5,6 @@ import "time"
 func init() {
 	plans["C33"] = Plan{Pkg: pkg("C33"), Steps: []Step{
 		{Run: "TestBrowseNS0", Kind: "test", QTimeout: 10 * time.Minute, TTimeout: 60 * time.Minute},
-		{Run: "TestBrowseGenerated", Quick: 160, Thorough: 4000, QShards: 8, TShards: 16, QTimeout: 10 * time.Minute, TTimeout: 60 * time.Minute},
+		{Run: "TestBrowseGenerated", Quick: 360, Thorough: 12000, QShards: 8, TShards: 16, QTimeout: 10 * time.Minute, TTimeout: 60 * time.Minute},
 	}}
 }
